@@ -232,6 +232,11 @@ def npItemBytes (d : DType) : Nat :=
   | some s => (DType.npItemsize s).getD 0
   | none => 0
 
+/-- the storage units a contiguous torch view of `n` elements at `storage_offset = k` denotes:
+    `_get_cbytes` reads `element_size * numel` bytes at `tensor.data_ptr()`, which is the storage
+    base plus `k` items (`tensor_adapters.py` 180-198); `numpy()` reads the same elements -/
+def torchView (storage : List Nat) (k n : Nat) : List Nat := (storage.drop k).take n
+
 /-- `TorchTensor.tobytes` (`tensor_adapters.py` 200-205), D45 fixed: the tensor memory
     (`element_size * numel` bytes, one storage unit per element) except for the 2-bit types, which
     are packed through `Tensor.tobytes` -/
